@@ -2,6 +2,7 @@ package props
 
 import (
 	"fmt"
+	"net/url"
 	"regexp"
 	"sort"
 	"strings"
@@ -180,6 +181,21 @@ func (s *c16Sys) Apply(op engine.Op) (string, *engine.Violation) {
 		}
 		if lp != wantP || (lh != wantH && lh != "http://aaa."+drv.HostBase+"/k") {
 			return cp, viol(sig("C16", string(s.kind), s.mode, "step", "complete", "location"), "complete: Location path-style %q (want %q), host-style %q (want %q)", lp, wantP, lh, wantH)
+		}
+		// whatever its form, the Location names the object under the addressing the request
+		// used: a GET of it on the same server returns the completed object
+		for _, lw := range []struct {
+			w   *drv.World
+			loc string
+		}{{s.p, lp}, {s.h, lh}} {
+			u, perr := url.Parse(lw.loc)
+			if perr != nil {
+				return cp, viol(sig("C16", string(s.kind), s.mode, "step", "complete", "location-unparsable"), "complete: Location %q", lw.loc)
+			}
+			g := lw.w.Do(drv.Req{Method: "GET", Path: u.Path, Host: u.Host})
+			if g.Status != 200 || string(g.Body) != "pp" {
+				return cp, viol(sig("C16", string(s.kind), s.mode, "step", "complete", "location-does-not-lead-to-the-object"), "complete: a GET of the returned Location %q answers %s, want the completed object", lw.loc, g.Short())
+			}
 		}
 	}
 	if (strings.HasPrefix(o.name, "complete") || o.name == "abort") && rp.Status < 300 {
